@@ -165,6 +165,15 @@ APP_NAMES = [("VENDOR_ID_3GPP", "DIAMETER_APPLICATION_S6a_S6d"), ("VENDOR_ID_3GP
 
 @st.composite
 def yaml_case(draw):
+    """the file is read once, or (1 case in 3) rewritten and read again at the same path: `earlier` documents come first"""
+    case = draw(yaml_doc())
+    if draw(st.integers(0, 2)) == 0:
+        case["earlier"] = [draw(yaml_doc())["specs"] for _ in range(draw(st.integers(1, 2)))]
+    return case
+
+
+@st.composite
+def yaml_doc(draw):
     n = draw(st.sampled_from([1, 2, 2, 3, 4]))
     specs = []
     for _ in range(n):
@@ -187,6 +196,26 @@ def yaml_case(draw):
 
 
 def check_yaml(case):
+    """documents written one after the other to the same path, each loaded and judged (a configuration file that is edited and
+    read again must be reflected as it is now)"""
+    fd, path = tempfile.mkstemp(prefix="c19-", suffix=".yaml")
+    os.close(fd)
+    try:
+        docs = list(case.get("earlier") or []) + [case["specs"]]
+        for i, specs in enumerate(docs):
+            status, why, vs = check_yaml_doc({"kind": "yaml", "specs": specs}, path)
+            if vs and i > 0:
+                for v in vs:
+                    v.sig += "/file-rewritten-at-the-same-path"
+            if vs or status != "ok":
+                return status, why, vs
+        return "ok", None, []
+    finally:
+        if os.path.exists(path):
+            os.unlink(path)
+
+
+def check_yaml_doc(case, path):
     common.bootstrap()
     import yaml
     import bromelia.bromelia as bb
@@ -194,17 +223,13 @@ def check_yaml(case):
     from bromelia._internal_utils import _convert_file_to_config, _convert_config_to_connection_obj
     errors = common.lib_errors()
     doc = {"api_version": "v1", "name": "verif", "spec": case["specs"]}
-    fd, path = tempfile.mkstemp(prefix="c19-", suffix=".yaml")
+    with open(path, "w") as f:
+        yaml.safe_dump(doc, f)
     try:
-        with os.fdopen(fd, "w") as f:
-            yaml.safe_dump(doc, f)
-        try:
-            cfgs = _convert_file_to_config(path, vars(bb))
-            conns = [_convert_config_to_connection_obj(c) for c in cfgs]
-        except (Exception,) + errors as e:
-            return "ok", None, [V("a valid YAML spec is accepted", f"yaml-raises/{type(e).__name__}", repr(e))]
-    finally:
-        os.unlink(path)
+        cfgs = _convert_file_to_config(path, vars(bb))
+        conns = [_convert_config_to_connection_obj(c) for c in cfgs]
+    except (Exception,) + errors as e:
+        return "ok", None, [V("a valid YAML spec is accepted", f"yaml-raises/{type(e).__name__}", repr(e))]
     vs = []
     if len(conns) != len(case["specs"]):
         return "ok", None, [V("one description per spec entry, in order", "yaml/count", f"{len(conns)} != {len(case['specs'])}")]
@@ -257,7 +282,7 @@ def _collect(shard, seed, n_dict, n_yaml):
 
     def body2(case):
         status, why, vs = check_yaml(case)
-        f = ["yaml", f"yaml-entries={len(case['specs'])}"]
+        f = ["yaml", f"yaml-entries={len(case['specs'])}"] + (["yaml-file-rewritten-and-read-again"] if case.get("earlier") else [])
         tts = [bool(s.get("transport_type")) for s in case["specs"]]
         if any(a and not b for a, b in zip(tts, tts[1:])):
             f.append("yaml-omitted-after-named")
@@ -274,7 +299,7 @@ def main(ctx):
         col = common.run_shards(_collect, 16, ctx.seed, n_dict=20000, n_yaml=2000)
     for path, rec in common.load_replays(PID):
         col.record(rec["case"], run_case(rec["case"]), nontrivial=True, classes=["replay"])
-    ctx.required_classes = ["all-valid", "unknown-key", "via=Diameter", "order=shuffled", "yaml-omitted-after-named"] + ["invalid:" + k for k in INVALID]
+    ctx.required_classes = ["all-valid", "unknown-key", "via=Diameter", "order=shuffled", "yaml-omitted-after-named", "yaml-file-rewritten-and-read-again"] + ["invalid:" + k for k in INVALID]
     ctx.assumptions = ["all 12 keys always present; booleans not generated; non-string IP values other than None not generated; "
                        "a falsy TRANSPORT_TYPE is not generated (treated by Config as absent)",
                        "APPLICATIONS invalid values: a non-bytes value inside an application entry (shape errors such as a "
